@@ -120,10 +120,13 @@ func (m *c08Model) enabled(ev c08srvEv) bool {
 		s := &m.s[c08Idx(ev.arg(0))]
 		return s.alive && (s.idle || m.fuzzy)
 	case "WU":
-		if ev.arg(0) == 0 {
-			return true
-		}
-		return m.s[c08Idx(ev.arg(0))].alive
+		// A connection-level WINDOW_UPDATE is always possible. A stream-level one
+		// is explored for a stream in every RFC 9113 §5.1 state: open/half-closed
+		// (grants stream window), closed by END_STREAM or by a RST_STREAM of either
+		// side (legal for a short period after the close, §5.1 "closed": the
+		// client's update crosses the server's END_STREAM; grants nothing) and idle
+		// (a client protocol error that ends the connection; grants nothing).
+		return true
 	case "RST":
 		return m.s[c08Idx(ev.arg(0))].alive
 	}
@@ -178,6 +181,13 @@ func (m *c08Model) apply(ev c08srvEv) {
 			m.cw += ev.arg(1)
 		} else {
 			s := &m.s[c08Idx(ev.arg(0))]
+			if !s.opened {
+				m.dead = true // idle stream: connection error PROTOCOL_ERROR (§5.1)
+				return
+			}
+			if !s.alive {
+				return // late frame on a closed stream: no window is affected
+			}
 			if s.win+ev.arg(1) > c08MaxWin {
 				s.alive, s.idle = false, false // server resets the stream
 				return
@@ -457,6 +467,10 @@ type c08Result struct {
 	dataAfterGS      bool // DATA on a stream <= its last stream id after that GOAWAY
 	blockedInGS      bool // a response was blocked on flow control at quiescence during the graceful shutdown
 	budgetSplit      bool // a DATA frame shorter than MAX_FRAME_SIZE was followed, before the client did anything, by more DATA of the same stream: neither a window nor the frame size limit cut it, the write scheduler's byte budget did
+	lateWUSeen       bool // a stream-level WINDOW_UPDATE was delivered for a closed stream (RFC 9113 §5.1 "closed")
+	lateWUData       bool // ... and the server sent DATA (on another stream) afterwards
+	lateWUConnBound  bool // ... and afterwards a response was blocked at quiescence by the connection window alone (its stream window positive)
+	idleWUSeen       bool // a stream-level WINDOW_UPDATE was delivered for an idle stream
 	budgetFull       bool // ... and later in the same burst a DATA frame of exactly MAX_FRAME_SIZE: the scheduler's budget had grown to (at least) the frame size limit
 }
 
@@ -495,6 +509,9 @@ func c08RunCase(w *vx.W, t testing.TB, cs c08srvCase) (res c08Result, harnessErr
 			}
 			if f.Type == FrameData {
 				res.dataFrames++
+				if res.lateWUSeen && f.Len > 0 {
+					res.lateWUData = true
+				}
 				if mon.graceful && f.Stream <= mon.gsLast && f.Len > 0 {
 					res.dataAfterGS = true
 				}
@@ -533,6 +550,9 @@ func c08RunCase(w *vx.W, t testing.TB, cs c08srvCase) (res c08Result, harnessErr
 			}
 			if s.written > s.onwire {
 				res.blockedSeen = true
+				if res.lateWUSeen && s.base > 0 && mon.cw <= 0 {
+					res.lateWUConnBound = true
+				}
 				if mon.graceful {
 					res.blockedInGS = true
 				}
@@ -573,6 +593,7 @@ func c08RunCase(w *vx.W, t testing.TB, cs c08srvCase) (res c08Result, harnessErr
 		expectStreamFC, expectConnFC := uint32(0), false
 		wasGraceful := mon.graceful
 		applied := true
+		wuKind := "WU-stream"
 		switch ev.K {
 		case "SETIW", "SETMFS":
 			p := c08PendSet{seq: mon.setsSent}
@@ -658,15 +679,29 @@ func c08RunCase(w *vx.W, t testing.TB, cs c08srvCase) (res c08Result, harnessErr
 				}
 			} else {
 				s := mon.streams[id]
-				if s == nil || !s.alive() {
-					applied = false
-					break
-				}
-				if mon.bound(s)+k > c08MaxWin {
+				switch {
+				case s == nil:
+					// RFC 9113 §5.1 "idle": a WINDOW_UPDATE here is a protocol error
+					// of the client. Whatever the server makes of it, it grants
+					// nothing: neither the connection window nor the window of a
+					// stream opened later changes. (That the server answers with
+					// GOAWAY(PROTOCOL_ERROR) is not this property's concern and is
+					// not demanded; if it does the case ends there.)
+					wuKind = "WU-idle-stream"
+					res.idleWUSeen = true
+				case !s.alive():
+					// RFC 9113 §5.1 "closed": WINDOW_UPDATE may legally arrive for a
+					// short period after the stream was closed (the client's update
+					// crossing the server's END_STREAM or RST_STREAM). It grants
+					// nothing: neither the connection window nor any other stream's
+					// window changes.
+					wuKind = "WU-closed-stream"
+					res.lateWUSeen = true
+				case mon.bound(s)+k > c08MaxWin:
 					expectStreamFC = id
 					s.overflow = true
 					res.overflowSeen = true
-				} else {
+				default:
 					s.base += k
 				}
 			}
@@ -693,7 +728,7 @@ func c08RunCase(w *vx.W, t testing.TB, cs c08srvCase) (res c08Result, harnessErr
 			if ev.arg(0) == 0 {
 				mon.lastKind = "WU-conn"
 			} else {
-				mon.lastKind = "WU-stream"
+				mon.lastKind = wuKind
 			}
 		}
 		step(ctx)
@@ -771,6 +806,16 @@ func c08Check(c *vx.Ctx) func(w *vx.W, cs c08srvCase) {
 		case res.budgetSplit:
 			w.Outcome("scheduler-byte-budget:split-below-max-frame-size")
 		}
+		switch {
+		case res.lateWUConnBound:
+			w.Outcome("window-update-on-closed-stream:later-response-bound-by-connection-window-alone")
+		case res.lateWUData:
+			w.Outcome("window-update-on-closed-stream:data-sent-afterwards")
+		case res.lateWUSeen:
+			w.Outcome("window-update-on-closed-stream:no-data-afterwards")
+		case res.idleWUSeen:
+			w.Outcome("window-update-on-idle-stream")
+		}
 		if res.skipped > 0 {
 			w.Outcome("model-real-disagreement-skipped-event")
 		}
@@ -799,6 +844,11 @@ func TestVerif_C08(t *testing.T) {
 		seedBig := []string{"SETMFS(16777215)", "H", "WU(1,100000)", "WU(0,100000)"} // frame-size splitting territory
 		// graceful shutdown under way (GOAWAY NO_ERROR, last stream id 3) with both responses blocked on their stream windows
 		seedGS := []string{"SETIW(3)", "H", "H", "W(1,5)", "W(3,5)", "GS"}
+		// Stream 1 completed and closed; every stream window (2^20) far above the
+		// connection window, which is 5 bytes from exhausted: the connection window
+		// alone is the binding limit for the next response, with a (late)
+		// WINDOW_UPDATE for the closed stream 1 among the events before it.
+		seedClosed := []string{"SETIW(1048576)", "H", "W(1,65530)", "DONE(1)"}
 		// The write scheduler's byte budget (the n of FrameWriteRequest.Consume(n)) as a
 		// third limit next to the windows and MAX_FRAME_SIZE. Every scheduler passes
 		// MaxInt32 except the RFC 7540 priority scheduler with ThrottleOutOfOrderWrites
@@ -823,6 +873,7 @@ func TestVerif_C08(t *testing.T) {
 				{"7540/big-writes", c08srvCfg{Sched: "7540"}, seedBig, c08Alphabet([]int64{0, 65535}, mfss, big, []int64{1, 100}), 3, 0},
 				{"9218/graceful-shutdown-blocked", c08srvCfg{Sched: "9218"}, seedGS, c08Alphabet(iws, nil, small, wus), 3, 0},
 				{"7540t/wide-windows-dependent-stream", c08srvCfg{Sched: "7540t"}, seedWideDep, wideAlpha, 3, 0},
+				{"rr/closed-stream-conn-window-binding", c08srvCfg{Sched: "rr"}, seedClosed, c08Alphabet(iws, nil, small, wus), 3, 0},
 			}
 		} else {
 			// every scheduler at the quick bounds first, then the deeper levels
@@ -843,6 +894,7 @@ func TestVerif_C08(t *testing.T) {
 					part{sch + "/negative-window", c08srvCfg{Sched: sch}, seedNeg, c08Alphabet(iws, nil, small, wus), 3, 0},
 					part{sch + "/big-writes", c08srvCfg{Sched: sch}, seedBig, c08Alphabet([]int64{0, 65535}, mfss, big, []int64{1, 100}), 3, 0},
 					part{sch + "/graceful-shutdown-blocked", c08srvCfg{Sched: sch}, seedGS, c08Alphabet(iws, nil, small, wus), 3, 0},
+					part{sch + "/closed-stream-conn-window-binding", c08srvCfg{Sched: sch}, seedClosed, c08Alphabet(iws, nil, small, wus), 3, 0},
 				)
 			}
 			for _, sch := range []string{"9218", "rr"} {
@@ -852,6 +904,7 @@ func TestVerif_C08(t *testing.T) {
 					part{sch + "/deep/two-streams-blocked", c08srvCfg{Sched: sch}, seedTwo, c08Alphabet(iws, nil, small, wus), 4, 4},
 					part{sch + "/deep/negative-window", c08srvCfg{Sched: sch}, seedNeg, c08Alphabet(iws, nil, small, wus), 4, 4},
 					part{sch + "/deep/graceful-shutdown-blocked", c08srvCfg{Sched: sch}, seedGS, c08Alphabet(iws, nil, small, wus), 4, 4},
+					part{sch + "/deep/closed-stream-conn-window-binding", c08srvCfg{Sched: sch}, seedClosed, c08Alphabet(iws, nil, small, wus), 4, 4},
 				)
 			}
 			for _, sch := range []string{"7540", "7540t"} {
@@ -862,9 +915,10 @@ func TestVerif_C08(t *testing.T) {
 			}
 			parts = append(parts, part{"9218/deep/empty", c08srvCfg{Sched: "9218"}, nil, c08Alphabet(iws, mfss, small, wus), 5, 5})
 		}
-		c.Rule("EV: for each part (write scheduler x seed prefix) every event sequence of depth 1..D after the seed over the menu {H (<=2 GET streams; H(1) = the second stream's HEADERS carry the RFC 7540 priority field 'depends on stream 1'), PRI(s,d) = PRIORITY frame making stream s depend on stream d (only in the wide-windows parts), handler Write(n)+Flush, handler return, WINDOW_UPDATE(conn|stream, k), SETTINGS INITIAL_WINDOW_SIZE / MAX_FRAME_SIZE, RST_STREAM, GS = the server starts a graceful shutdown (serverConn.startGracefulShutdown, what http.Server.Shutdown triggers: GOAWAY(NO_ERROR, last stream id))}, write schedulers: 9218 (package default), rr, random, 7540 (NewPriorityWriteScheduler(nil)) and 7540t = the RFC 7540 priority scheduler with ThrottleOutOfOrderWrites, the one configuration whose Pop gives FrameWriteRequest.Consume a byte budget other than MaxInt32 (1024, +1024 per throttled frame of a burst, for a stream below a still-open parent); the wide-windows parts start from INITIAL_WINDOW_SIZE=2^20 and a connection WINDOW_UPDATE of 2^20 so that this budget and MAX_FRAME_SIZE, not the windows, bound a frame, with Write sizes {1000, 5000, 200000} on each side of the initial budget and long enough for the budget to outgrow the default MAX_FRAME_SIZE; pruned by a predictive model (events on streams that are not open or whose handler is blocked are not issued; H(1) only for the second stream; PRI only on a live stream and only if it changes the signalled parent; GS at most once and only while a stream is open; no H after GS) and decided on the real state at run time; each sequence runs on a fresh real http2.Server in its own synctest bubble; after every event: quiescence, drain all frames, RFC 7540 §6.9 window accounting on every DATA frame, frame length vs MAX_FRAME_SIZE, progress at quiescence, white-box sc.flow/st.flow == monitor; after a graceful GOAWAY(NO_ERROR) all of these stay in force for every stream <= its last stream id (the older stream and the last one itself), only a GOAWAY with an error code ends a case. non-trivial = the server emitted at least one DATA frame; states = explored event histories (stateless search), transitions = events applied to the real server and checked at quiescence, traces = histories executed to their end")
+		c.Rule("EV: for each part (write scheduler x seed prefix) every event sequence of depth 1..D after the seed over the menu {H (<=2 GET streams; H(1) = the second stream's HEADERS carry the RFC 7540 priority field 'depends on stream 1'), PRI(s,d) = PRIORITY frame making stream s depend on stream d (only in the wide-windows parts), handler Write(n)+Flush, handler return, WINDOW_UPDATE(conn|stream, k) where the stream is stream 1 or 3 in any RFC 9113 §5.1 state (open/half-closed: grants stream window; closed by END_STREAM or by RST_STREAM of either side: the late WINDOW_UPDATE a client may legally send shortly after the close, which grants nothing, in particular no connection window; idle: a client protocol error, grants nothing, nothing is issued after it), SETTINGS INITIAL_WINDOW_SIZE / MAX_FRAME_SIZE, RST_STREAM, GS = the server starts a graceful shutdown (serverConn.startGracefulShutdown, what http.Server.Shutdown triggers: GOAWAY(NO_ERROR, last stream id))}, write schedulers: 9218 (package default), rr, random, 7540 (NewPriorityWriteScheduler(nil)) and 7540t = the RFC 7540 priority scheduler with ThrottleOutOfOrderWrites, the one configuration whose Pop gives FrameWriteRequest.Consume a byte budget other than MaxInt32 (1024, +1024 per throttled frame of a burst, for a stream below a still-open parent); the wide-windows parts start from INITIAL_WINDOW_SIZE=2^20 and a connection WINDOW_UPDATE of 2^20 so that this budget and MAX_FRAME_SIZE, not the windows, bound a frame, with Write sizes {1000, 5000, 200000} on each side of the initial budget and long enough for the budget to outgrow the default MAX_FRAME_SIZE; the closed-stream-conn-window-binding parts start from INITIAL_WINDOW_SIZE=2^20, a first response of 65530 bytes and its stream closed, so that the connection window (5 bytes left) alone bounds the second response, with Write sizes on each side of it; pruned by a predictive model (handler events and RST_STREAM on streams that are not open or whose handler is blocked are not issued; H(1) only for the second stream; PRI only on a live stream and only if it changes the signalled parent; GS at most once and only while a stream is open; no H after GS) and decided on the real state at run time; each sequence runs on a fresh real http2.Server in its own synctest bubble; after every event: quiescence, drain all frames, RFC 7540 §6.9 window accounting on every DATA frame, frame length vs MAX_FRAME_SIZE, progress at quiescence, white-box sc.flow/st.flow == monitor; after a graceful GOAWAY(NO_ERROR) all of these stay in force for every stream <= its last stream id (the older stream and the last one itself), only a GOAWAY with an error code ends a case. non-trivial = the server emitted at least one DATA frame; states = explored event histories (stateless search), transitions = events applied to the real server and checked at quiescence, traces = histories executed to their end")
 		c.Assume("interleavings are explored at event granularity (one client/handler event, then run to quiescence); scheduling inside a step is Go's (L2)")
 		c.Assume("after a WINDOW_UPDATE/SETTINGS that overflows a window the client's view of that window is undefined; the monitor keeps the old value and requires the FLOW_CONTROL_ERROR the RFC mandates")
+		c.Assume("a stream-level WINDOW_UPDATE for a closed stream is written after the server's END_STREAM/RST_STREAM has been read (event granularity); for the server this is the same input as an update that crossed its END_STREAM on the wire (RFC 9113 §5.1 'closed'), and also after the client's own RST_STREAM the connection window the RFC defines is unchanged by it; a WINDOW_UPDATE for an idle stream is a client protocol error: it grants nothing, the GOAWAY(PROTOCOL_ERROR) answer is not demanded and no further event is issued after it")
 		c.Assume("graceful shutdown: streams above the GOAWAY's last stream id are not opened (the server ignores them; outside the property); a window overflow after the graceful GOAWAY ends the case without requiring a second GOAWAY carrying FLOW_CONTROL_ERROR (a stream-window overflow must still be answered with RST_STREAM); the GOAWAY's last stream id itself is not judged")
 		c.Assume("priority signals: only the dependency between the two streams (default weight, non-exclusive) is varied, through the HEADERS priority field of the second stream or a PRIORITY frame; weights, the exclusive flag, idle-stream grouping nodes and PriorityWriteSchedulerConfig values other than the documented defaults (+ throttling) are not explored; a user-supplied WriteScheduler implementation is outside the property")
 		c.Assume("progress is checked only as: at quiescence no live stream has flushed handler bytes off the wire while both its windows are positive (L4)")
